@@ -187,3 +187,114 @@ Proof.
   apply closed_file_view; [exact Hrec|].
   apply written_data_length. apply zeros_length.
 Qed.
+
+(* ------------------------------ the same upload over the HTTP protocol ----- *)
+(* `covered` means what it says: every byte position of the share lies in one
+   of the ranges *)
+Lemma covered_spec size ranges :
+  covered size ranges = true <->
+  forall i, i < size -> exists r, In r ranges /\ fst r <= i /\ i < fst r + snd r.
+Proof.
+  unfold covered. rewrite forallb_forall. split.
+  - intros H i Hi. specialize (H i).
+    assert (Hin : In i (map N.of_nat (seq 0 (N.to_nat size)))).
+    { apply in_map_iff. exists (N.to_nat i). split; [apply N2Nat.id|]. apply in_seq. lia. }
+    apply H in Hin. apply existsb_exists in Hin. destruct Hin as [r [Hr Hb]].
+    unfold in_range in Hb. apply andb_true_iff in Hb. destruct Hb as [H1 H2].
+    apply N.leb_le in H1. apply N.ltb_lt in H2. exists r. auto.
+  - intros H i Hi. apply in_map_iff in Hi. destruct Hi as [j [<- Hj]]. apply in_seq in Hj.
+    destruct (H (N.of_nat j)) as [r [Hr [H1 H2]]]; [lia|].
+    apply existsb_exists. exists r. split; [exact Hr|].
+    unfold in_range. apply andb_true_iff. split; [apply N.leb_le|apply N.ltb_lt]; assumption.
+Qed.
+
+Lemma write_ranges_cons_ok size w r :
+  (fst w + flen (snd w) <=? size) = true ->
+  write_ranges size (w :: r) = write_ranges size r ++ [(fst w, flen (snd w))].
+Proof. intro H. unfold write_ranges. cbn [flat_map]. rewrite H. cbn [app]. reflexivity. Qed.
+
+Lemma write_ranges_cons_bad size w r :
+  (fst w + flen (snd w) <=? size) = false -> write_ranges size (w :: r) = write_ranges size r.
+Proof. intro H. unfold write_ranges. cbn [flat_map]. rewrite H. reflexivity. Qed.
+
+Lemma http_write_ops_shape si sh size writes : forall prev,
+  (exists m, http_write_ops si sh size prev writes
+             = map (lift (Incoming si sh)) (upload_write_fops size (firstn m writes))
+               ++ [Rename (Incoming si sh) (Final si sh)]
+             /\ covered size (write_ranges size (firstn m writes) ++ prev) = true)
+  \/ http_write_ops si sh size prev writes
+     = map (lift (Incoming si sh)) (upload_write_fops size writes).
+Proof.
+  induction writes as [|w r IH]; intro prev; [right; reflexivity|].
+  cbn [http_write_ops]. destruct (fst w + flen (snd w) <=? size) eqn:E.
+  - destruct (covered size ((fst w, flen (snd w)) :: prev)) eqn:C.
+    + left. exists 1%nat. cbn [firstn upload_write_fops flat_map]. rewrite E. cbn [app map lift].
+      split; [reflexivity|]. rewrite write_ranges_cons_ok by exact E. exact C.
+    + destruct (IH ((fst w, flen (snd w)) :: prev)) as [[m [H1 H2]]|H].
+      * left. exists (S m). cbn [firstn upload_write_fops flat_map]. rewrite E. cbn [app map lift].
+        split; [rewrite H1; reflexivity|].
+        rewrite write_ranges_cons_ok by exact E. rewrite <- app_assoc. exact H2.
+      * right. cbn [upload_write_fops flat_map]. rewrite E. cbn [app map lift]. rewrite H. reflexivity.
+  - destruct (IH prev) as [[m [H1 H2]]|H].
+    + left. exists (S m). cbn [firstn upload_write_fops flat_map]. rewrite E. cbn [app].
+      split; [exact H1|]. rewrite write_ranges_cons_bad by exact E. exact H2.
+    + right. cbn [upload_write_fops flat_map]. rewrite E. cbn [app]. exact H.
+Qed.
+
+(* over HTTP a share becomes visible only through the write that completes it:
+   after any crash + restart it is absent, or it holds the data of writes whose
+   ranges cover every byte of the share *)
+Lemma http_upload_absent_or_byte_complete_proof si sh size rec writes s pre :
+  s (Final si sh) = None -> length rec = 72%nat ->
+  In pre (crash_prefixes (http_upload_ops si sh size rec writes)) ->
+  let s' := recover (run_p pre s) in
+  s' (Final si sh) = None \/
+  exists m, covered size (write_ranges size (firstn m writes)) = true /\
+            s' (Final si sh) = Some (file_at_close size rec (firstn m writes)) /\
+            view_of (s' (Final si sh)) = VImm (written_data size (firstn m writes)) [rec].
+Proof.
+  intros Habs Hrec Hpre s'. unfold http_upload_ops in Hpre.
+  destruct (http_write_ops_shape si sh size writes []) as [[m [H1 H2]]|H].
+  - rewrite app_nil_r in H2.
+    assert (E : imm_create_ops (Incoming si sh) size rec ++ http_write_ops si sh size [] writes
+                = upload_ops si sh size rec (firstn m writes)).
+    { rewrite H1. unfold upload_ops, imm_create_ops. rewrite map_app, <- app_assoc. reflexivity. }
+    rewrite E in Hpre.
+    destruct (upload_absent_or_complete_proof si sh size rec (firstn m writes) s pre Habs Hpre) as [A|A].
+    + left. exact A.
+    + right. exists m. split; [exact H2|]. split; [exact A|].
+      fold s'. unfold s'. rewrite A. apply file_at_close_complete_proof. exact Hrec.
+  - left. subst s'. change (recover ?x (Final si sh)) with (x (Final si sh)).
+    apply crash_prefixes_spec in Hpre. destruct Hpre as [k [_ ->]].
+    rewrite run_p_untouched; [exact Habs|].
+    intros x Hx Hin. apply In_firstn in Hx. apply in_app_or in Hx. destruct Hx as [Hx|Hx].
+    + unfold imm_create_ops in Hx. destruct Hx as [<-|Hx].
+      * destruct Hin as [X|[]]. discriminate X.
+      * apply in_map_iff in Hx. destruct Hx as [z [<- _]]. rewrite lift_targets in Hin.
+        destruct Hin as [X|[]]. discriminate X.
+    + rewrite H in Hx. apply in_map_iff in Hx. destruct Hx as [z [<- _]]. rewrite lift_targets in Hin.
+      destruct Hin as [X|[]]. discriminate X.
+Qed.
+
+Lemma http_sops_ops si sh size writes : forall prev s,
+  sops_ops (http_sops si sh size prev writes) s = http_write_ops si sh size prev writes.
+Proof.
+  induction writes as [|w r IH]; intros prev s; [reflexivity|].
+  cbn [http_sops sops_ops http_write_ops]. unfold plain_ops at 1. cbn [ops_of].
+  destruct (fst w + flen (snd w) <=? size).
+  - destruct (covered size ((fst w, flen (snd w)) :: prev)).
+    + reflexivity.
+    + cbn [map fst app]. f_equal. apply IH.
+  - cbn [map app]. apply IH.
+Qed.
+
+Lemma http_upload_ops_are_the_server_operations si sh size rec writes s :
+  s (Final si sh) = None -> s (Incoming si sh) = None ->
+  sops_ops (ImmAllocate si [] [sh] size rec true :: http_sops si sh size [] writes) s
+  = http_upload_ops si sh size rec writes.
+Proof.
+  intros HF HI. cbn [sops_ops]. rewrite http_sops_ops. unfold http_upload_ops. f_equal.
+  unfold plain_ops. cbn [ops_of existing filter all_existing forallb map app seq_steps].
+  unfold alloc_step at 1. unfold exists_at. rewrite HF, HI. cbn [orb].
+  rewrite app_nil_r. apply map_fst_unflagged.
+Qed.
